@@ -37,6 +37,12 @@ def _cells(kind, n, j, sec):
     return out
 
 
+VJ = ["top", "center", "bottom", "merge_first", "merge_rest", ""]
+BS = ["single", "double", "thick", "dotted", "dashed", "small-dash", "dash-dotted", "dash-dot-dotted", "triple", "wavy", "double-wavy",
+      "striped", "embossed", "engraved", "frame", ""]
+TJ = ["l", "c", "r", "d", "j"]
+
+
 def _section(c, sec):
     import polars as pl
     import rtflite as rtf
@@ -122,10 +128,6 @@ def _section(c, sec):
     else:
         bk["text_format"] = "b"
     full = c.get("vocab") == "full"
-    VJ = ["top", "center", "bottom", "merge_first", "merge_rest", ""]
-    BS = ["single", "double", "thick", "dotted", "dashed", "small-dash", "dash-dotted", "dash-dot-dotted", "triple", "wavy", "double-wavy",
-          "striped", "embossed", "engraved", "frame", ""]
-    TJ = ["l", "c", "r", "d", "j"]
     if full and n > 0:
         # every legal keyword of the enumerated cell options occurs somewhere in the table (cycled over the cells)
         bk["cell_vertical_justification"] = [[VJ[(r * ncols + j) % len(VJ)] for j in range(ncols)] for r in range(n)]
@@ -163,6 +165,8 @@ def _section(c, sec):
 
 
 def build(c, tmp):
+    full = c.get("vocab") == "full"
+    n, m = c["n"], c["m"]
     import rtflite as rtf
     sz = {"text_font_size": 10.5} if c["size"] == "half" else {}
     col = {"text_color": "blue"} if c["colour"] else {}
